@@ -6,6 +6,7 @@ import (
 	"fmt"
 	"math/rand"
 	"net"
+	"net/http"
 	"net/url"
 
 	"github.com/chihaya/chihaya/frontend/udp"
@@ -73,10 +74,18 @@ func c11Stream(o *Out, rng *rand.Rand, n int) {
 						opt := c06Opts{Spoof: spoof, MaxNW: 100, DefNW: 50, MaxIH: 50}
 						var hdrs []c06Hdr
 						if hi > 0 || rng.Intn(2) == 0 {
-							opt.HdrName = "X-Real-Ip"
-							if hv != "" {
-								hdrs = []c06Hdr{{Key: "X-Real-Ip", Vals: []string{hv}}}
+							// the trusted header is per configuration: alternate between names (and spellings) from case to
+							// case, and always send ANOTHER, untrusted header with a forged address alongside
+							names := []string{"X-Real-Ip", "Cf-Connecting-Ip", "x-real-ip", "X-Forwarded-For"}
+							opt.HdrName = names[rng.Intn(len(names))]
+							other := "Cf-Connecting-Ip"
+							if http.CanonicalHeaderKey(opt.HdrName) == other {
+								other = "X-Real-Ip"
 							}
+							if hv != "" {
+								hdrs = []c06Hdr{{Key: http.CanonicalHeaderKey(opt.HdrName), Vals: []string{hv}}}
+							}
+							hdrs = append(hdrs, c06Hdr{Key: other, Vals: []string{"203.0.113.66"}})
 						} else if rng.Intn(2) == 0 {
 							// header sent but not configured as trusted: must be ignored
 							hdrs = []c06Hdr{{Key: "X-Real-Ip", Vals: []string{"203.0.113.200"}}}
